@@ -49,6 +49,8 @@ pub struct Example {
     /// how the file is passed
     pub file_flag: Option<&'static str>,
     pub tsptw_output: bool,
+    /// hand-written instances appended to the enumerated scope (index = count + i): inputs of recorded findings
+    pub extra: Vec<Case>,
 }
 
 fn argsets(widths: &[Option<usize>], threads: &[Option<usize>], wflag: &str, tflag: &str) -> Vec<Vec<String>> {
@@ -75,7 +77,7 @@ pub fn examples(th: bool) -> Vec<Example> {
         let sizes: Vec<u64> = scopes.iter().map(|(n, a)| 7 * (a * a).pow(*n as u32)).collect();
         let count = sizes.iter().sum();
         let sc = scopes.clone();
-        ex.push(Example { name: "knapsack", scope: format!("(items, alphabet of weights/profits 1..a) in {:?}, capacity 0..=6, all combinations", scopes), count, file_flag: None, tsptw_output: false,
+        ex.push(Example { name: "knapsack", scope: format!("(items, alphabet of weights/profits 1..a) in {:?}, capacity 0..=6, all combinations", scopes), count, file_flag: None, tsptw_output: false, extra: vec![],
             arg_sets: argsets(&w4, &[None], "-w", "-t"),
             gen: Box::new(move |mut idx| {
                 let mut k = 0;
@@ -95,7 +97,7 @@ pub fn examples(th: bool) -> Vec<Example> {
         let sizes: Vec<u64> = ns.iter().map(|n| (1u64 << (n * (n - 1) / 2)) * (1u64 << n)).collect();
         let count = sizes.iter().sum();
         let nsc = ns.clone();
-        ex.push(Example { name: "misp", scope: format!("all graphs on n vertices, n in {:?}, vertex weights in {{1,2}}^n", ns), count, file_flag: None, tsptw_output: false,
+        ex.push(Example { name: "misp", scope: format!("all graphs on n vertices, n in {:?}, vertex weights in {{1,2}}^n", ns), count, file_flag: None, tsptw_output: false, extra: vec![],
             arg_sets: argsets(&w4, tt, "-w", "-t"),
             gen: Box::new(move |mut idx| {
                 let mut k = 0;
@@ -128,7 +130,7 @@ pub fn examples(th: bool) -> Vec<Example> {
         let mut blocks: Vec<(usize, usize, u64)> = vec![]; // (n, k clauses, size)
         for (n, kmax) in scopes.iter() { let u = universe(*n).len() as u64; for k in 1..=*kmax { if k as u64 <= u { blocks.push((*n, k, binom(u, k as u64) * (1u64 << k))); } } }
         let count = blocks.iter().map(|b| b.2).sum();
-        ex.push(Example { name: "max2sat", scope: format!("(variables, max clauses) in {:?}: all sets of distinct non tautological unit/binary clauses, weights in {{1,2}}", scopes), count, file_flag: Some("--file"), tsptw_output: false,
+        ex.push(Example { name: "max2sat", scope: format!("(variables, max clauses) in {:?}: all sets of distinct non tautological unit/binary clauses, weights in {{1,2}}", scopes), count, file_flag: Some("--file"), tsptw_output: false, extra: vec![],
             arg_sets: argsets(&w4, &[None], "-w", "-t"),
             gen: Box::new(move |mut idx| {
                 let mut b = 0;
@@ -157,7 +159,7 @@ pub fn examples(th: bool) -> Vec<Example> {
         let sizes: Vec<u64> = ns.iter().map(|n| alpha(*n).pow((n * (n - 1) / 2) as u32)).collect();
         let count = sizes.iter().sum();
         let nsc = ns.clone();
-        ex.push(Example { name: "mcp", scope: format!("all graphs on n vertices, n in {:?}, every edge absent or weighted -1, 1 or 2{}", ns, if th { "" } else { " (4 vertices: absent, -1 or 2)" }), count, file_flag: Some("--file"), tsptw_output: false,
+        ex.push(Example { name: "mcp", scope: format!("all graphs on n vertices, n in {:?}, every edge absent or weighted -1, 1 or 2{}", ns, if th { "" } else { " (4 vertices: absent, -1 or 2)" }), count, file_flag: Some("--file"), tsptw_output: false, extra: vec![],
             arg_sets: argsets(&w4, &[None], "-w", "-t"),
             gen: Box::new(move |mut idx| {
                 let mut k = 0;
@@ -179,7 +181,7 @@ pub fn examples(th: bool) -> Vec<Example> {
         for l in 1..=maxlen { for m in 0..(1u32 << l) { strs.push((0..l).map(|i| if m & (1 << i) != 0 { 'b' } else { 'a' }).collect()); } }
         let ns = strs.len() as u64;
         let count = ns * ns + if th { ns * ns * ns } else { 0 };
-        ex.push(Example { name: "lcs", scope: format!("all ordered tuples of {} strings of length 1..=3 over {{a,b}}", if th { "2 and 3" } else { "2" }), count, file_flag: None, tsptw_output: false,
+        ex.push(Example { name: "lcs", scope: format!("all ordered tuples of {} strings of length 1..=3 over {{a,b}}", if th { "2 and 3" } else { "2" }), count, file_flag: None, tsptw_output: false, extra: vec![],
             arg_sets: argsets(&w4, tt, "-w", "-t"),
             gen: Box::new(move |mut idx| {
                 let k = if idx < ns * ns { 2 } else { idx -= ns * ns; 3 };
@@ -201,7 +203,7 @@ pub fn examples(th: bool) -> Vec<Example> {
     {
         let sizes: Vec<usize> = if th { vec![2, 3, 4, 5, 6, 7] } else { vec![2, 3, 4, 5, 6] };
         let sc = sizes.clone();
-        ex.push(Example { name: "golomb", scope: format!("number of marks in {:?} (oracle: brute force over mark sets)", sizes), count: sizes.len() as u64, file_flag: Some("GOLOMB"), tsptw_output: false,
+        ex.push(Example { name: "golomb", scope: format!("number of marks in {:?} (oracle: brute force over mark sets)", sizes), count: sizes.len() as u64, file_flag: Some("GOLOMB"), tsptw_output: false, extra: vec![],
             arg_sets: argsets(&[None, Some(1), Some(2), Some(3), Some(10)], &[None], "-w", "-t"),
             gen: Box::new(move |idx| {
                 let n = sc[idx as usize];
@@ -239,7 +241,9 @@ pub fn examples(th: bool) -> Vec<Example> {
         let info: Vec<(usize, u64, Vec<Vec<(usize, usize)>>, usize)> = scopes.iter().map(|(n, a)| { let inner = n - 2; (*n, *a, dags(inner), inner * 2 + inner * (inner - 1)) }).collect();
         let sizes: Vec<u64> = info.iter().map(|(_, a, d, e)| d.len() as u64 * a.pow(*e as u32)).collect();
         let count = sizes.iter().sum();
-        ex.push(Example { name: "sop", scope: format!("(nodes, distance alphabet 1..a) in {:?}: all relevant distance assignments x all precedence DAGs on the inner nodes", scopes), count, file_flag: None, tsptw_output: false,
+        let d12 = Case { text: "NAME: d12.sop\nTYPE: SOP\nCOMMENT: 7 nodes, found by an independent random search (seeded/C16b/notes.md)\nDIMENSION: 7\nEDGE_WEIGHT_TYPE: EXPLICIT\nEDGE_WEIGHT_FORMAT: FULL_MATRIX\nEDGE_WEIGHT_SECTION\n7\n0 15 19 14 1 16 1000000\n-1 0 1 3 -1 9 0\n-1 1 0 8 4 13 9\n-1 17 3 0 8 -1 16\n-1 10 8 15 0 9 7\n-1 3 5 13 1 0 13\n-1 -1 -1 -1 -1 -1 0\nEOF\n".to_string(),
+            expect: Expect::Value(27.0), descr: "D12 instance: 7 nodes, precedences 4 < 1 and 5 < 3, optimum 27 = 0 4 5 3 2 1 6".to_string() };
+        ex.push(Example { name: "sop", scope: format!("(nodes, distance alphabet 1..a) in {:?}: all relevant distance assignments x all precedence DAGs on the inner nodes", scopes), count, file_flag: None, tsptw_output: false, extra: vec![d12],
             arg_sets: argsets(&w4, tt, "-w", "-t"),
             gen: Box::new(move |mut idx| {
                 let mut k = 0;
@@ -281,7 +285,7 @@ pub fn examples(th: bool) -> Vec<Example> {
         let count = blocks.iter().map(|b| b.1).sum();
         let bl = blocks.clone();
         let th2 = th;
-        ex.push(Example { name: "tsptw", scope: format!("symmetric matrices over {{1,2}} on <= {} nodes (windows earliest {{0,2,4}} x width {{0,2,5}}, horizon {{6,9,14}}); ALL asymmetric matrices over {{1,2}} on 3 nodes; 4 nodes with <= 2 directed entries raised from 1 to 3 (windows width {{4,9}}, horizon {{9,14}}); every matrix closed under shortest paths", if th { 4 } else { 3 }), count, file_flag: None, tsptw_output: true,
+        ex.push(Example { name: "tsptw", scope: format!("symmetric matrices over {{1,2}} on <= {} nodes (windows earliest {{0,2,4}} x width {{0,2,5}}, horizon {{6,9,14}}); ALL asymmetric matrices over {{1,2}} on 3 nodes; 4 nodes with <= 2 directed entries raised from 1 to 3 (windows width {{4,9}}, horizon {{9,14}}); every matrix closed under shortest paths", if th { 4 } else { 3 }), count, file_flag: None, tsptw_output: true, extra: vec![],
             arg_sets: if th { argsets(&w4, tt, "-w", "-t") } else { argsets(&w4, &[Some(1)], "-w", "-t") },
             gen: Box::new(move |mut idx| {
                 let _ = th2;
@@ -342,7 +346,7 @@ pub fn examples(th: bool) -> Vec<Example> {
         let sizes: Vec<u64> = ns.iter().map(|n| (1u64 << n) * 3u64.pow((n * (n - 1) / 2) as u32)).collect();
         let count = sizes.iter().sum();
         let nsc = ns.clone();
-        ex.push(Example { name: "srflp", scope: format!("departments in {:?}, lengths in {{1,2}}, symmetric flows in {{0,1,2}}, all combinations", ns), count, file_flag: None, tsptw_output: false,
+        ex.push(Example { name: "srflp", scope: format!("departments in {:?}, lengths in {{1,2}}, symmetric flows in {{0,1,2}}, all combinations", ns), count, file_flag: None, tsptw_output: false, extra: vec![],
             arg_sets: argsets(&w4, tt, "-w", "-t"),
             gen: Box::new(move |mut idx| {
                 let mut k = 0;
@@ -369,7 +373,7 @@ pub fn examples(th: bool) -> Vec<Example> {
         let sizes: Vec<u64> = scopes.iter().map(|(s, a)| (1u64 << (s * a)) * (1u64 << a) * (1u64 << s)).collect();
         let count = sizes.iter().sum();
         let sc = scopes.clone();
-        ex.push(Example { name: "talentsched", scope: format!("(scenes, actors) in {:?}: all presence matrices, actor costs in {{1,2}}, scene durations in {{1,2}}", scopes), count, file_flag: None, tsptw_output: false,
+        ex.push(Example { name: "talentsched", scope: format!("(scenes, actors) in {:?}: all presence matrices, actor costs in {{1,2}}, scene durations in {{1,2}}", scopes), count, file_flag: None, tsptw_output: false, extra: vec![],
             arg_sets: argsets(&w4, tt, "-w", "-t"),
             gen: Box::new(move |mut idx| {
                 let mut k = 0;
@@ -400,7 +404,7 @@ pub fn examples(th: bool) -> Vec<Example> {
         let sizes: Vec<u64> = scopes.iter().map(|(t, ni)| (1u64 << (t * ni)) * 3u64.pow((ni * (ni - 1)) as u32) * (1u64 << ni)).collect();
         let count = sizes.iter().sum();
         let sc = scopes.clone();
-        ex.push(Example { name: "psp", scope: format!("(periods, items) in {:?}: all 0/1 demand matrices, change-over costs in {{0,1,2}}, stocking costs in {{0,1}}", scopes), count, file_flag: None, tsptw_output: false,
+        ex.push(Example { name: "psp", scope: format!("(periods, items) in {:?}: all 0/1 demand matrices, change-over costs in {{0,1,2}}, stocking costs in {{0,1}}", scopes), count, file_flag: None, tsptw_output: false, extra: vec![],
             arg_sets: argsets(&w4, &[None], "-w", "-t"),
             gen: Box::new(move |mut idx| {
                 let mut k = 0;
@@ -444,7 +448,7 @@ pub fn examples(th: bool) -> Vec<Example> {
         let info: Vec<(usize, usize, usize, Vec<Vec<i64>>)> = scopes.iter().map(|(a, c, r)| (*a, *c, *r, msets(*a))).collect();
         let sizes: Vec<u64> = info.iter().map(|(na, ncl, _, ms)| (*ncl as u64).pow(*na as u32) * ms.len() as u64 * 3u64.pow(*na as u32) * (1u64 << (ncl * ncl))).collect();
         let count = sizes.iter().sum();
-        ex.push(Example { name: "alp", scope: format!("(aircraft, classes, runways) in {:?}: all class assignments, sorted targets from {{1,2,4}}, latest = target + {{0,1,3}} (ordered inside a class), separations in {{1,2}}", scopes), count, file_flag: None, tsptw_output: false,
+        ex.push(Example { name: "alp", scope: format!("(aircraft, classes, runways) in {:?}: all class assignments, sorted targets from {{1,2,4}}, latest = target + {{0,1,3}} (ordered inside a class), separations in {{1,2}}", scopes), count, file_flag: None, tsptw_output: false, extra: vec![],
             arg_sets: argsets(&w4, tt, "-w", "-t"),
             gen: Box::new(move |mut idx| {
                 let mut k = 0;
@@ -490,22 +494,29 @@ fn start_watchdog() {
     std::thread::spawn(|| loop {
         std::thread::sleep(Duration::from_millis(500));
         let mut w = WATCH.lock().unwrap();
-        for (pid, (t, killed)) in w.iter_mut() { if !*killed && t.elapsed() > Duration::from_secs(20) { *killed = true; unsafe { kill(*pid as i32, 9); } } }
+        for (pid, (deadline, killed)) in w.iter_mut() { if !*killed && Instant::now() > *deadline { *killed = true; unsafe { kill(*pid as i32, 9); } } }
     });
 }
 
-/// runs the binary on a case file with an argument set; returns the verdict
+/// runs the binary on a case file with an argument set; a watchdog time-out alone is not believed (loaded machine):
+/// the run is repeated once with a 90 s watchdog and only a second time-out is a hang
 fn run_case(bin: &str, ex: &Example, file: &str, case: &Case, args: &[String]) -> Verdict {
+    match run_case_once(bin, ex, file, case, args, 20) {
+        Verdict::Bad(sig, _) if sig.ends_with(":hang") => run_case_once(bin, ex, file, case, args, 90),
+        v => v,
+    }
+}
+fn run_case_once(bin: &str, ex: &Example, file: &str, case: &Case, args: &[String], watchdog_s: u64) -> Verdict {
     let mut cmd = Command::new(bin);
     match ex.file_flag { Some("GOLOMB") => { cmd.arg(case.text.trim()); } Some(f) => { cmd.arg(f).arg(file); } None => { cmd.arg(file); } }
     cmd.args(args).stdout(Stdio::piped()).stderr(Stdio::piped()).stdin(Stdio::null()).env("RUST_BACKTRACE", "0");
     let child = match cmd.spawn() { Ok(c) => c, Err(e) => return Verdict::Bad("machinery".to_string(), format!("cannot spawn {}: {}", bin, e)) };
     // blocking wait; a watchdog thread kills the children which are older than 20 s
     let pid = child.id();
-    WATCH.lock().unwrap().insert(pid, (Instant::now(), false));
+    WATCH.lock().unwrap().insert(pid, (Instant::now() + Duration::from_secs(watchdog_s), false));
     let out = child.wait_with_output();
     let killed = WATCH.lock().unwrap().remove(&pid).map_or(false, |e| e.1);
-    if killed { return Verdict::Bad(format!("example:{}:hang", ex.name), "no result within the 20 s watchdog".to_string()); }
+    if killed { return Verdict::Bad(format!("example:{}:hang", ex.name), format!("no result within the {} s watchdog", watchdog_s)); }
     let out = match out { Ok(o) => o, Err(e) => return Verdict::Bad("machinery".to_string(), format!("wait failed: {}", e)) };
     let stdout = String::from_utf8_lossy(&out.stdout).to_string();
     if !out.status.success() {
@@ -575,8 +586,8 @@ pub fn check(tier: &str) -> i32 {
         let deadline = Instant::now() + Duration::from_secs_f64(share);
         let bin = format!("{}/{}", bindir, ex.name);
         let te = Instant::now();
-        let res = par_run::<Local, _>(ex.count, 8, Some(deadline), rep.seed, |i, l| {
-            let case = (ex.gen)(i);
+        let res = par_run::<Local, _>(ex.count + ex.extra.len() as u64, 8, Some(deadline), rep.seed, |i, l| {
+            let case = if i < ex.count { (ex.gen)(i) } else { ex.extra[(i - ex.count) as usize].clone() };
             let tid = format!("{:?}", std::thread::current().id()).replace(|c: char| !c.is_ascii_digit(), "");
             let dir = format!("{}/{}/t{}", scratch, ex.name, tid);
             let _ = std::fs::create_dir_all(&dir);
@@ -600,15 +611,15 @@ pub fn check(tier: &str) -> i32 {
         let mut l = Local::default();
         for x in res.locals { l.runs += x.runs; l.cases += x.cases; l.infeasible += x.infeasible; l.distinct_objectives.extend(x.distinct_objectives); if l.samples.is_empty() { l.samples.extend(x.samples); } }
         runs += l.runs; cases += l.cases;
-        if res.done < ex.count { complete = false; }
+        if res.done < ex.count + ex.extra.len() as u64 { complete = false; }
         if samples.len() < 12 { samples.extend(l.samples.into_iter().take(1)); }
-        per_example.push(json!({"example": ex.name, "scope": ex.scope, "instances_in_scope": ex.count, "instances_done": res.done, "complete": res.done == ex.count, "runs": l.runs, "argument_sets": ex.arg_sets.len(),
+        per_example.push(json!({"example": ex.name, "scope": ex.scope, "instances_in_scope": ex.count, "extra_hand_written_instances": ex.extra.len(), "instances_done": res.done, "complete": res.done == ex.count + ex.extra.len() as u64, "runs": l.runs, "argument_sets": ex.arg_sets.len(),
             "infeasible_instances": l.infeasible, "distinct_optimal_values": l.distinct_objectives.len(), "wall_s": te.elapsed().as_secs_f64()}));
     }
     let _ = std::fs::remove_dir_all(&scratch);
     let cov = json!({
         "evaluations": runs, "distinct_nontrivial": cases,
-        "rule": "per example: every instance file of the stated tiny scope (bounded exhaustive, decoded from an index) x every listed argument set (widths / threads) is run through the real example binary built from /repo (dev profile, overflow checks on); oracle = brute force over the combinatorial object written from the problem statement; a run is a violation when the binary exits non-zero, exceeds a 20 s watchdog, prints Aborted: true, or prints an objective different from the oracle; distinct_nontrivial = distinct instance files run (each instance is enumerated once)",
+        "rule": "per example: every instance file of the stated tiny scope (bounded exhaustive, decoded from an index) x every listed argument set (widths / threads) is run through the real example binary built from /repo (dev profile, overflow checks on); oracle = brute force over the combinatorial object written from the problem statement; a run is a violation when the binary exits non-zero, exceeds the watchdog (20 s, confirmed by a second run with 90 s), prints Aborted: true, or prints an objective different from the oracle; distinct_nontrivial = distinct instance files run (each instance is enumerated once)",
         "samples": samples, "exhaustive": complete, "examples": per_example,
         "caps_hit": if complete { json!([]) } else { json!(["wall clock share of the tier: see examples[*].instances_done (the order of blocks rotates with VERIF_SEED)"]) },
     });
